@@ -308,8 +308,77 @@ def r3_decode_panics(ctx, rid='C08.R3'):
     r.floor(sum(seen.values()), 25, 'reviewed residual sites (the census sees the decode region)')
 
 
+def r6_reset_counter(ctx):
+    r = ctx.rule('C08.R6', 'TSTATE', 'remote-reset pending-accept counter: every stream that next_incoming will decrement was counted (assert!(num_remote_reset_streams > 0) unreachable)')
+    F = ctx.facts
+    from .. import absint, rfcstates as R
+    from ..absint import B, TOP
+    SP = 'proto::streams::state::State::'
+    CNT = P + 'counts::Counts::'
+    rr = r.fn(P + 'recv::Recv::recv_reset')
+    srr = r.fn(SP + 'recv_reset')
+    if not rr or not srr:
+        return
+    # who counts / uncounts
+    incs = set(c.split('::{closure')[0] for c in F.rcg.get(CNT + 'inc_num_remote_reset_streams', ()))
+    decs = set(c.split('::{closure')[0] for c in F.rcg.get(CNT + 'dec_num_remote_reset_streams', ()))
+    r.check(incs == {rr.name}, 'who|inc', '', 'inc_num_remote_reset_streams called from %s' % sorted(incs))
+    r.check(decs == {P + 'streams::Streams::next_incoming'}, 'who|dec', '', 'dec_num_remote_reset_streams called from %s' % sorted(decs))
+    # the decrement is keyed on State::is_remote_reset
+    for name in sorted(F.rcg.get(CNT + 'dec_num_remote_reset_streams', ())):
+        g = F.fns.get(name)
+        if g is None:
+            continue
+        edges = core.guard_edges(F, g, [SP + 'is_remote_reset'], lambda l: l is True)
+        for bi, t in g.calls_to(CNT + 'dec_num_remote_reset_streams'):
+            r.check(bool(edges) and g.dominated_by_edges(bi, edges), 'dec|keyed-on-remote-reset', g.loc(bi), 'the decrement happens exactly for streams whose state is a remote reset when they are accepted')
+    # for every state a pending-accept stream can be in: if this RST_STREAM turns the state into a remote reset,
+    # the stream must have been counted on that path
+    inline = set(n for n in F.fns if n.startswith(SP + 'is_'))
+    n = 0
+    for s in R.concrete_states():
+        called = []
+        models = dict(R.models())
+        models[CNT + 'can_inc_num_remote_reset_streams'] = lambda a: B(True)
+        models[CNT + 'inc_num_remote_reset_streams'] = lambda a, c=called: (c.append(1), ('k', '()'))[1]
+        models[SP + 'recv_reset'] = lambda a: ('k', '()')
+        stream = ('ref', ('s', P + 'stream::Stream', (('is_pending_accept', B(True)), ('state', ('s', R.ST, (('inner', s),))))))
+        it = absint.Interp(F, models=models, inline=inline)
+        try:
+            out = it.run(rr, {1: TOP, 2: TOP, 3: stream, 4: TOP})
+        except (core.Cap, absint.Unsupported) as e:
+            r.bad('count|interp', rr.file, 'cannot evaluate Recv::recv_reset: %s' % e)
+            return
+        oks = [ret for ret, fin in out if R.ret_class(ret).startswith('Ok')]
+        counted = bool(called)
+        for q in (False, True):
+            m2 = dict(R.models())
+            m2['proto::error::Error::remote_reset'] = lambda a: ('k', 'remote')
+            it2 = absint.Interp(F, models=m2, inline={SP + 'is_recv_end_stream', SP + 'is_closed'})
+            out2 = it2.run(srr, {1: R.state_obj(s), 2: TOP, 3: B(q)})
+            becomes_remote = False
+            for ret, fin in out2:
+                ns = R.final_state(fin)
+                if ns is not None and ns != TOP and ns[2] == 'Closed' and ns[3] and ns[3][0] != TOP and ns[3][0][0] == 'e' and ns[3][0][3] and ns[3][0][3][0] == ('k', 'remote'):
+                    becomes_remote = True
+            n += 1
+            if becomes_remote:
+                r.check(counted and bool(oks), 'count|%s|queued=%s' % (absint.show(s), str(q).lower()), rr.file,
+                        'pending-accept stream in %s (own RST queued: %s) receives RST_STREAM: the state becomes a remote reset and the stream %s' % (
+                            absint.show(s), q, 'is counted' if counted else 'is NOT counted — next_incoming will decrement a counter that was never incremented: assert!(num_remote_reset_streams > 0) panics in poll_accept'))
+    r.floor(n, 30, 'state x queued rows')
+
+
+def r7_frame_size_floor(ctx):
+    r = ctx.rule('C08.R7', 'GUARD', 'a peer cannot set a max frame size under which header-block / DATA writing makes no progress: SETTINGS_MAX_FRAME_SIZE below 2^14 is refused on load')
+    from . import C12
+    C12.max_frame_size_range(r, ctx.facts)
+
+
 def run(ctx):
     r1_slots(ctx)
+    r6_reset_counter(ctx)
+    r7_frame_size_floor(ctx)
     r2_buffer_guard(ctx)
     r3_decode_panics(ctx)
     r4_loops(ctx)
